@@ -1,12 +1,11 @@
 package s0351
 
 type G1 struct {
-	F0x0 []int32
-	F0x1 []int64
-	F0x2 uint32
+	F1x0 []int64
 }
 
 type T struct {
-	F0 *G1
-	F1 uint64
+	F0 *int32
+	F1 G1
+	F2 uint32
 }
